@@ -150,9 +150,10 @@ def dump_tree(t):
         d["il"] = t.include_low
         d["ih"] = t.include_high
     elif isinstance(t, T.BaseApprox):
-        d["num"] = num_json(t.degree, t._implicit_degree)
+        # implicit degree = nothing is printed after the "~" (observable behaviour, not a private attribute)
+        d["num"] = num_json(t.degree, t.__str__().endswith("~"))
     elif isinstance(t, T.Boost):
-        d["num"] = num_json(t.force, t.implicit_force)
+        d["num"] = num_json(t.force, t.__str__().endswith("^"))
     elif isinstance(t, T.OpenRange):
         d["inc"] = t.include
     d["ch"] = [dump_tree(c) for c in t.children]
